@@ -49,7 +49,7 @@ pub fn run_one(tr: &RunTrace, opts: &RunOpts) -> RunReport {
     log::set_max_level(log::LevelFilter::Warn);
     HEAP_FILL.store(tr.knobs.heap as u8, Ordering::Relaxed);
 
-    let world = Arc::new(World::new(tr.knobs.slots as usize));
+    let world = Arc::new(World::new(tr.knobs.slots as usize, tr.knobs.repeat != 0));
     {
         let ctx = Ctx { w: &world, tid: PRE_TID };
         for op in &tr.pre {
@@ -213,6 +213,11 @@ pub fn run_one(tr: &RunTrace, opts: &RunOpts) -> RunReport {
         }
     }
 
+    // ------------------------------------------------------------ stress phase (scout, not deterministic)
+    if tr.knobs.stress > 0 && !opts.miri {
+        stress_phase(&world, &pending, tr.knobs.stress, tr.threads.len().clamp(3, 4));
+    }
+
     // ------------------------------------------------------------ final retention check (I2/I5)
     {
         let ctx = Ctx { w: &world, tid: PRE_TID };
@@ -246,6 +251,7 @@ pub fn run_one(tr: &RunTrace, opts: &RunOpts) -> RunReport {
     c.insert("repeats_same_thread", ld(&st.repeats));
     c.insert("refs_fresh_thread", ld(&st.refs_thread));
     c.insert("refs_fresh_process", ld(&st.refs_process));
+    c.insert("stress_phase_conversions", ld(&st.stress_convs));
     c.insert("pointwise_pixels", ld(&st.pointwise_pixels));
     c.insert("label_checks", ld(&st.label_checks));
     c.insert("unspecified_resolved", ld(&st.unspecified_resolved));
@@ -270,6 +276,74 @@ pub fn run_one(tr: &RunTrace, opts: &RunOpts) -> RunReport {
     let violations = std::mem::take(&mut *world.viol.lock().unwrap_or_else(std::sync::PoisonError::into_inner));
     let classes = world.classes.lock().unwrap_or_else(std::sync::PoisonError::into_inner).iter().cloned().collect();
     RunReport { seed: tr.seed, violations, sched: sched_report, counters: c, classes, threads: n }
+}
+
+// ------------------------------------------------------------------ stress phase
+/// Re-executes the run's conversions concurrently on real, unscheduled OS threads and compares
+/// every result with the quiescent one taken just before. Finds races between two statements of
+/// code a change added (a torn cache entry), which the baton engine cannot reach and the Miri
+/// engine reaches only with luck in a quick run. It is a scout: which thread runs when is decided
+/// by the OS, so a failure found here may not replay; the driver says so in the replay file.
+fn stress_phase(world: &Arc<World>, pending: &[Pending], rounds: u64, nthreads: usize) {
+    // jobs: distinct conversions of this run with special-free inputs, small enough to be quick
+    let mut jobs: Vec<(Arc<Val>, Op, Outcome)> = Vec::new();
+    for p in pending {
+        if jobs.len() >= 12 {
+            break;
+        }
+        let (w, h) = p.input.dims();
+        if w * h == 0 || w * h > 64 || special_mask(&p.input).is_some() || matches!(p.outcome, Outcome::Panic(_)) {
+            continue;
+        }
+        // quiescent expectation, on this thread, now
+        let expect = ref_eval(&p.input, &p.op);
+        if matches!(expect, Outcome::Panic(_)) {
+            continue;
+        }
+        jobs.push((Arc::clone(&p.input), p.op.clone(), expect));
+    }
+    if jobs.len() < 2 {
+        return;
+    }
+    let jobs = Arc::new(jobs);
+    let start = Arc::new(std::sync::Barrier::new(nthreads));
+    let handles: Vec<_> = (0..nthreads)
+        .map(|t| {
+            let (jobs, start, world) = (Arc::clone(&jobs), Arc::clone(&start), Arc::clone(world));
+            std::thread::spawn(move || {
+                start.wait();
+                for round in 0..rounds as usize {
+                    for k in 0..jobs.len() {
+                        let (input, op, expect) = &jobs[(k + t * 3 + round) % jobs.len()];
+                        let got = ref_eval(input, op);
+                        world.stats.stress_convs.fetch_add(1, Ordering::Relaxed);
+                        if !got.same(expect, input) {
+                            let cs = CONVS[conv_canon(op.which) as usize];
+                            world.violate(
+                                "I3",
+                                "C11",
+                                format!("I3:stress:{}", cs.name),
+                                format!(
+                                    "{} on {} gave {} while {} threads were converting concurrently, but {} when evaluated alone just before (free-running stress phase: found under the OS scheduler, replay is statistical)",
+                                    cs.name,
+                                    input.brief(),
+                                    got.brief(),
+                                    jobs.len().min(4),
+                                    expect.brief()
+                                ),
+                                0,
+                                t,
+                            );
+                            return;
+                        }
+                    }
+                }
+            })
+        })
+        .collect();
+    for h in handles {
+        let _ = h.join();
+    }
 }
 
 // ------------------------------------------------------------------ fresh-process reference
